@@ -164,7 +164,7 @@ func C06_op_step() {
 		if fseq0 == 0 && i == 0 {
 			wantOp = byte(op)
 		}
-		hdr := vAnd(f.op == wantOp, vAnd(f.rsv == 0, f.masked == !server))
+		hdr := vAnd(f.op == wantOp, vAnd(f.rsv == vWantRsv(f.op), f.masked == !server))
 		hdr = vAnd(hdr, f.fin == (isFlush && i == len(fs)-1))
 		vAssert(hdr, "step.frame_header")
 		sent = append(sent, f.payload...)
